@@ -173,12 +173,12 @@ def shard_methods(sh, part):
         def tie_free_desc(x):
             return -perm * 3.0 + (x[:, 1] % 5) * 0.01
         dec = rng.choice([tie_free, tie_free_desc])
-        ncls = rng.choice([2, 2, 3, 4, 6])
+        ncls = rng.choice([2, 2, 3, 4, 6]) if (n < 200 or rng.random() < 0.7) else rng.choice([23, 31, 51, 55, 12, 64])
         if ncls == 2:
             p = rng.choice([0.5, 0.25, 0.75, 0.125, [0.25, 0.75], np.array([0.625, 0.375])])
             cum = [p if isinstance(p, float) else float(p[0])]
         else:
-            mode = rng.choice(['float', 'list', 'ndarray'])
+            mode = rng.choice(['float', 'list', 'ndarray']) if ncls <= 16 else 'float'      # sixteenths only describe up to 16 classes
             if mode == 'float':
                 p = 0.5
                 cum = [(i + 1) / ncls for i in range(ncls - 1)]
@@ -232,6 +232,8 @@ def shard_methods(sh, part):
                 sh.case(('noise-cat', n, level, k), level > 0, 'noise/categorical')
             level = rng.choice([0.0, 0.1, 0.33, 0.9])
             Xf = X0.astype(float) if rng.random() < 0.5 else X0
+            if Xf.dtype.kind == 'f' and rng.random() < 0.5:
+                Xf = np.ascontiguousarray(Xf)          # a float data set in C order (what down-sampling / categorical noise / user code produce)
             marker = float('-inf') if Xf.dtype.kind == 'f' else -1
             Xf0 = Xf.copy()
             kw = {} if Xf.dtype.kind == 'f' and rng.random() < 0.5 else {'missing_val': marker}
